@@ -672,7 +672,7 @@ def _check_engine_terms(ctx):
         ctx.case(("engine", item["seed"], item["flavour"]), nontrivial=bool(rep["cone_log"]["skipped"]))
     for b in bad[:2]:
         item, rep = pairs[b]
-        term = rep["engine_term"].replace("check_cone_dyn", "trace_cone_dyn", 1).replace("check_cone_amend", "trace_cone_amend", 1)
+        term = rep["engine_term"].replace("check_cone_dyn_opt", "trace_cone_dyn_opt", 1).replace("check_cone_dyn (", "trace_cone_dyn (", 1).replace("check_cone_amend", "trace_cone_amend", 1).replace("trace_cone_dyn_opt", "trace_cone_dyn_opt")
         got = common.eval_terms(ctx, "c04enginediag", ENGINE_HEADER, [term])
         ctx.add_failure("correspondence", "E3:Engine", f"E3:engine:{item['flavour']}:executed-or-skipped-set-differs",
                         f"seed {item['seed']} ({rep.get('variant')}): model/Engine.v and the real director disagree on "
